@@ -520,14 +520,16 @@ def gen_case(rng, runner=None, knobs=None):
         else:
             if rng.random() < 0.8:
                 yields.append({'kind': 'base', 'basename': fname})
-        tchars = ['a', 'b', 'c', 'd']
+        tchars = ['a', 'b', 'c', 'd', 'e', 'f', 'g', 'h']
+        if rng.random() < 0.04:
+            tchars = ['a', 'b', 'a', 'b', 'a', 'b', 'a', 'b']     # two created tasks with a common target: InvalidTask
         for j, y in enumerate(yields):
             prev = [yield_name(p, fname) for p in yields[:j] if p['kind'] != 'sub'] + \
                    ['%s:%s' % (fname, p['sub']) for p in yields[:j] if p['kind'] == 'sub' and not creates]
             deps = [d for d in prev if rng.random() < 0.25]
             deps += [s['name'] for s in static if rng.random() < 0.12]
             y['task_dep'] = deps
-            y['targets'] = ['o%d_%s' % (c, tchars[j % 4])] if rng.random() < 0.6 else []
+            y['targets'] = ['o%d_%s' % (c, tchars[j % 8])] if rng.random() < 0.6 else []
             y['file_dep'] = []
             y['utd'] = rng.random() < 0.2
             y['fails'] = rng.random() < k.get('p_fail', 0.08)
